@@ -14,6 +14,7 @@ import ParryModel.C16.Theorems10
 import ParryModel.C16.Theorems11
 import ParryModel.C16.Theorems12
 import ParryModel.C16.Theorems13
+import ParryModel.C16.Theorems14
 /-!
 # C16 property theorems: ear clipping and Hertel–Mehlhorn, for every linearly ordered field.
 
